@@ -6,6 +6,7 @@ From Coq Require Import Ascii String List NArith Bool.
 From J5V.lib Require Import Outcome Corr.
 From J5V.gen Require SetExtGen.
 From J5V.model Require Import CmpbFields CmpbFieldsCorr CmpbOrder.
+From J5V.model Require CmpbBytes.
 Import ListNotations.
 Local Open Scope N_scope.
 
@@ -116,11 +117,23 @@ Definition c14_check (c : c14case) : bool :=
       let pre := map bytes_of_string prefixes in
       (* a produced file the harness has no Dependency list for imports a path nobody can find: the case fails *)
       let conv := fun (_ : env) (_ : @srcfile unit) (o : bytes) => match bfind outs' o with Some d => d | None => [[0]] end in
-      let is_local := fun p => existsb (fun x => bprefix x p) pre in
-      let owner := fun p => match bfind owners' p with Some q => q | None => [] end in
-      match compile_and_link conv (fun _ l => l) (fun _ l => l) (fun _ l => l) owner is_local (bfind exts') (fun d : list bytes => d)
+      (* file-to-package attribution: NOT the harness's tables but the model's own functions (model/CmpbBytes.v), so that the
+         real CompilePackage result below is compared with a run that uses split_owner (SplitPackageFromFilename) and
+         is_local_of (hasAPrefix over localPrefixes).  The local packages are those of the summary whose prefix the real
+         sourceResolver holds; the real prefixes must be exactly local_prefixes of them; the harness's packageForFile table
+         must agree with split_owner; every file the real loader put into a local package lies directly in its directory *)
+      let bb := to_bundle b in
+      let local_pkgs := filter (fun q => existsb (beqb (CmpbBytes.pkg_root q ++ [47])) pre) (map fst bb) in
+      let is_local := CmpbBytes.is_local_of local_pkgs in
+      let owner := CmpbBytes.split_owner in
+      forallb (fun x => existsb (beqb x) (CmpbBytes.local_prefixes local_pkgs)) pre
+      && forallb (fun kv => match snd kv with [] => true | q => beqb (CmpbBytes.split_owner (fst kv)) q end) owners'
+      && forallb (fun kv => Bool.eqb (is_local (fst kv)) (existsb (fun x => bprefix x (fst kv)) pre)) (owners' ++ map (fun kv => (fst kv, [])) (outs' ++ exts'))
+      && forallb (fun pf => negb (existsb (beqb (fst pf)) local_pkgs)
+                            || forallb (fun f => beqb (CmpbBytes.dir_of (f_name f)) (CmpbBytes.pkg_root (fst pf))) (snd pf)) bb
+      && match compile_and_link conv (fun _ l => l) (fun _ l => l) (fun _ l => l) owner is_local (bfind exts') (fun d : list bytes => d)
                              (fun _ ls => 1 + fold_left N.add ls 0)
-                             (S (length b)) (S (length outs + length exts)) (to_bundle b) [] [] (bytes_of_string n) with
+                             (S (length b)) (S (length outs + length exts)) bb [] [] (bytes_of_string n) with
       | Some (_, _, out) =>
           list_eqb (fun x y => beqb (fst x) (fst y) && N.eqb (snd x) (snd y)) out
                    (map (fun kv => (bytes_of_string (fst kv), snd kv)) observed)
